@@ -10,11 +10,11 @@ CHECK = {
         {"fn": P + "vC38_flag", "cases_quick": {"slots": [6]}, "cases_thorough": {"slots": [9]}},
         {"fn": P + "vC38_lww", "cases_quick": {"slots": [6]}, "cases_thorough": {"slots": [9]}},
         {"fn": P + "vC38_lww_anyclock", "cases_quick": {"slots": [6]}, "cases_thorough": {"slots": [9]}},
-        {"fn": P + "vC38_mvregister", "cases_quick": {"slots": [6]}, "cases_thorough": {"slots": [7]}},
-        {"fn": P + "vC38_orset", "cases_quick": {"slots": [4], "part": [0, 1, 2]}, "cases_thorough": {"slots": [5], "part": [0, 1, 2]}},
-        {"fn": P + "vC38_ormap", "cases_quick": {"slots": [4], "part": [0, 1, 2]}, "cases_thorough": {"slots": [5], "part": [0, 1, 2]}},
+        {"fn": P + "vC38_mvregister", "cases_quick": {"slots": [6], "part": [0, 1, 2]}, "cases_thorough": {"slots": [7], "part": [0, 1, 2]}},
+        {"fn": P + "vC38_orset", "cases_quick": {"slots": [4], "part": [0, 1, 2]}, "cases_thorough": {"slots": [5], "part": [0, 1, 2]}, "opts": {"batch_fresh": True}},
+        {"fn": P + "vC38_ormap", "cases_quick": {"slots": [4], "part": [0, 1, 2]}, "cases_thorough": {"slots": [5], "part": [0, 1, 2]}, "opts": {"batch_fresh": True}},
     ],
-    "opts": {"unwind": 10, "feas_from_iter": 100, "map_range": "per_entry", "map_dedup": True, "batch_fresh": True},
+    "opts": {"unwind": 10, "feas_from_iter": 100, "map_range": "per_entry", "map_dedup": True},
     "timeout_ms": {"quick": 400000, "thorough": 3000000},
     "explanation": "",
     "bounds": {},
